@@ -14,3 +14,7 @@ pub use set_speed_train_sim::*;
 pub use speed_limit_train_sim::*;
 pub use train_config::*;
 pub use train_state::*;
+#[cfg(feature = "verif-hooks")]
+pub use braking_point::*;
+#[cfg(feature = "verif-hooks")]
+pub use friction_brakes::*;
